@@ -160,6 +160,18 @@ def check(run):
     for name, cs, mf, kw in seqs:
         data = zipatch.encode_patch(cs + [{"k": "EOF"}])
         extra.append(faults.line(n, pbx, {"k": "sequence", "what": name}, data, must_fail=mf, tree0={"dirs": [], "files": []}, **kw))
+    # a regular file sits where a command needs a directory: the command cannot have its effect, so the patch must not report success
+    blocked = lambda path: {"dirs": [], "files": [{"p": list(path), "c": [[7, 3]]}]}
+    for name, cs, tree in [
+            ("mkdirtree-onto-file", [T, {"k": "FM", "path": list(b"blocked/")}], blocked(b"blocked")),
+            ("mkdirtree-below-file", [T, {"k": "FM", "path": list(b"blocked/sub/")}], blocked(b"blocked")),
+            ("mkdirtree-deep-onto-file", [T, {"k": "FM", "path": list(b"a/b/blocked/")}], blocked(b"a/b/blocked")),
+            ("addfile-below-file", [T, {"k": "FA", "path": list(b"blocked/x.bin"), "off": 0, "data": [[5, 10]], "blocks": [[False, 10]]}], blocked(b"blocked")),
+            ("adddata-folder-is-file", [T, {**ids, "k": "A", "off": 0, "data": [[1, 128]], "del": 0}], blocked(b"sqpack/ffxiv")),
+            ("expand-folder-is-file", [T, {**ids, "k": "E", "off": 0, "n": 1}], blocked(b"sqpack/ffxiv")),
+            ("header-folder-is-file", [T, {**ids, "k": "H", "fk": "D", "hk": "V", "data": [[1, 1024]]}], blocked(b"sqpack/ffxiv"))]:
+        data = zipatch.encode_patch(cs + [{"k": "EOF"}])
+        extra.append(faults.line(n, pbx, {"k": "sequence", "what": name}, data, must_fail=True, tree0=tree))
     # a file operation declaring a huge file size with no data behind it
     huge = zipatch.encode_patch([T, {"k": "FA", "path": list(b"h.bin"), "off": 0, "data": [[5, 10]], "blocks": [[False, 10]]}, {"k": "EOF"}])
     k = huge.index(b"SQPK") + 4 + 4 + 1 + 3 + 8
@@ -169,7 +181,7 @@ def check(run):
     run.rule = ("every (base, fault) pair of the fault space enumerated by TLC from Faults.tla (truncation at every length 0..48, every "
                 "field boundary +-1 and the file's tail; every field set to 0, 1, 0x7F.., 0x80.., 0xFF.., original +-1 in both byte orders) over "
                 "valid bases of each format (quick: a seeded 260 per base), named text / path faults, patch fault sequences (command before "
-                "target info, count 0, missing folder, unwritable target, huge size, stream ends anywhere), random multi-byte damage; each "
+                "target info, count 0, missing folder, unwritable target, a regular file in the place of a needed directory, huge size, stream ends anywhere), random multi-byte damage; each "
                 "run in an isolated worker with a counting allocator; distinct by input bytes, all non-trivial")
     run.conform(cases, MODULE, CFG, shards=14, mode="supervise", xmx="3g")
     run.assumptions = ["a crash, hang or abort of the worker is recorded by the supervisor for the case that was running",
